@@ -9,7 +9,7 @@ import math
 import vlib
 from checks import numcommon as nc
 
-PROOF_MODULES = []
+PROOF_MODULES = ["Num/NumC29.vo", "Num/NumC29F.vo", "Num/NumC29P.vo"]
 OBLIGATIONS = [
     "C29/P_Lt_correct.v", "C29/P_Le_correct.v", "C29/P_Le_not_Lt.v", "C29/P_Ge_Le.v", "C29/P_Gt_Lt.v",
     "C29/P_Eq_sym.v", "C29/P_Ne_negb_Eq.v", "C29/P_nonvacuous.v",
